@@ -96,7 +96,7 @@ def run(tier):
             def a_jobs():
                 for part in range(nparts):
                     yield {"cmd": "custom", "method": "sweep", "args": {"part": part, "nparts": nparts},
-                           "id": "sweep%d" % part, "timeout": 900}
+                           "id": "sweep%d" % part, "timeout": 900, "must": True}
                 gen = seeds_from(base)
                 i = 0
                 while True:
